@@ -263,8 +263,14 @@ class CustomState(BaseState):
         C = Config()
 
         assert isinstance(self.state, jnp.ndarray)
+        # p(i) = Tr(M_i rho M_i^dagger)
         probabilities = jnp.array(
-            [jnp.trace(jnp.matmul(op, self.state)).real for op in operators]
+            [
+                jnp.trace(
+                    jnp.matmul(op, jnp.matmul(self.state, jnp.conj(op.T)))
+                ).real
+                for op in operators
+            ]
         )
         probabilities = probabilities / jnp.sum(probabilities)
 
